@@ -123,7 +123,9 @@ RelClauses(S, d, prune, o, outs, orcs) ==
         g   == S.descs[1]
         o1  == outs[<<1, prune>>]
         ex  == S.exact
-        rtol(s) == IF s \in DOMAIN o1.rtol THEN 2 * o1.rtol[s] + 4 ELSE (IF ex THEN Nano ELSE 1000000)
+        \* (exact sessions without a tolerance from the oracle -- the input game is not stopping but the
+        \*  pipeline terminates: a coarse 10^-2, as for the states outside the reachable part)
+        rtol(s) == IF s \in DOMAIN o1.rtol THEN 2 * o1.rtol[s] + 4 ELSE (IF ex THEN 10000000 ELSE 1000000)
         G == 4000
         \* K4 (known finding, DESIGN section 8): the two presentations resolved an exact tie
         \* of reachability values differently (K1 seen through C13), so Player 1 is cut to
